@@ -305,6 +305,37 @@ pub fn run(tier: &str, seed: u64, em: &mut Emitter) {
         }
     }
 
+    // Exhaustive small texts: every string up to a length bound over the structural alphabet (ties
+    // the tokenizer model to serde_json on all short inputs, well- and ill-formed).
+    {
+        const ALPHA: &[u8] = b"{}[]\":,10-.e a\\u";
+        let max_len = if tier == "thorough" { 5 } else { 3 };
+        let mut cur: Vec<usize> = vec![];
+        loop {
+            // next string in length-lexicographic order
+            let mut i = cur.len();
+            loop {
+                if i == 0 {
+                    cur = vec![0; cur.len() + 1];
+                    break;
+                }
+                i -= 1;
+                if cur[i] + 1 < ALPHA.len() {
+                    cur[i] += 1;
+                    for c in cur.iter_mut().skip(i + 1) {
+                        *c = 0;
+                    }
+                    break;
+                }
+            }
+            if cur.len() > max_len {
+                break;
+            }
+            let t: String = cur.iter().map(|&k| ALPHA[k] as char).collect();
+            emit(em, "exhaustive-short", &t);
+        }
+    }
+
     // Random structured: one value, several textual spellings that must give the same outcome.
     for _ in 0..n_values {
         let g = gen_g(&mut r, 3);
